@@ -14,6 +14,9 @@ import Mathlib.Tactic.Ring
 
 set_option linter.unusedSimpArgs false
 set_option linter.unusedVariables false
+set_option linter.unusedTactic false
+set_option linter.unreachableTactic false
+set_option linter.unnecessarySeqFocus false
 
 namespace Pandora.C07Kernels
 open Pandora Pandora.CrossCheck Pandora.PyLoops Pandora.PyVec Pandora.PyVecIdx
@@ -220,6 +223,70 @@ def confFl : Conf → Fl
   | .fin q => .fin q
   | .inf => .pinf
 
+/-- a distance (`Ext`) as a float -/
+def extFl : Ext → Fl
+  | .fin q => .fin q
+  | .inf => .pinf
+
+/-! ## Scalars -/
+
+theorem confFl_toConf (e : Ext) : confFl e.toConf = extFl e := by cases e <;> rfl
+
+theorem nan_to_inf (v : Val) : (if (Fl.ofVal v).isNan = true then Fl.pinf else Fl.ofVal v) = extFl (nanToInf v) := by
+  cases v <;> simp [Fl.ofVal, Fl.isNan, nanToInf, extFl]
+
+theorem abs_add_ext (a b : Ext) : Fl.abs (Fl.add (extFl a) (extFl b)) = extFl (absSum a b) := by
+  cases a <;> cases b <;> simp [extFl, Fl.add, Fl.abs, absSum, PyExpr.rabs, ratAbs]
+
+theorem lt_ext (t : ℚ) (e : Ext) : Fl.lt (.fin t) (extFl e) = e.gt t := by
+  cases e <;> simp [extFl, Fl.lt, Ext.gt]
+
+theorem valid_eq (x : Nat) : neq (Nat.land x 963) 0 = !Flags.isInvalid x := by
+  have : Nat.land x 963 = x &&& 963 := rfl
+  simp only [neq, Flags.isInvalid, Flags.pixelInvalid, this]
+  by_cases h : x &&& 963 = 0 <;> simp [h]
+
+theorem truncQ_intCast (z : Int) : truncQ (z : ℚ) = z := by
+  unfold truncQ
+  split
+  · simp
+  · have e : (-(z : ℚ)) = ((-z : ℤ) : ℚ) := by push_cast; ring
+    rw [e, Rat.floor_intCast]; omega
+
+theorem getD_embedRow (l : List Val) (c : Nat) : (embedRow l).getD c Fl.nan = Fl.ofVal (l.getD c .nan) := by
+  simp only [embedRow, List.getD_eq_getElem?_getD, List.getElem?_map]
+  cases l[c]? <;> rfl
+
+theorem len_embedRow (l : List Val) : len (embedRow l) = (l.length : Int) := by simp [len, embedRow]
+
+/-- the correspondent as the generated code computes it -/
+theorem castInt_rint (v : Val) :
+    castInt (PyVecIdx.rint (Fl.ofVal v)) = match v with | .nan => intMin | .num q => CrossCheck.rint q := by
+  cases v with
+  | nan => rfl
+  | num q => simp only [Fl.ofVal, PyVecIdx.rint, castInt, truncQ_intCast]; rfl
+
+theorem inside_eq (n c : Nat) (v : Val) (hc : c < n) (hn : n ≤ 2 ^ 63) :
+    (ile 0 (Int.add (c : Int) (castInt (PyVecIdx.rint (Fl.ofVal v))))
+      && ilt (Int.add (c : Int) (castInt (PyVecIdx.rint (Fl.ofVal v)))) (n : Int)) = insideRight n (colRight c v) := by
+  rw [castInt_rint]
+  cases v with
+  | nan =>
+    have h : ¬ (0 : Int) ≤ Int.add (c : Int) intMin := by
+      show ¬ (0 : Int) ≤ (c : Int) + (-9223372036854775808); omega
+    simp only [colRight, insideRight, ile, h, decide_false, Bool.false_and]
+  | num q => simp only [colRight, insideRight, ile, ilt]; rfl
+
+theorem outside_aux (n : Nat) (x : Int) : (ilt x 0 || ile (n : Int) x) = !(ile 0 x && ilt x (n : Int)) := by
+  simp only [ile, ilt]
+  rw [Bool.eq_iff_iff]
+  simp
+
+theorem outside_eq (n c : Nat) (v : Val) (hc : c < n) (hn : n ≤ 2 ^ 63) :
+    (ilt (Int.add (c : Int) (castInt (PyVecIdx.rint (Fl.ofVal v)))) 0
+      || ile (n : Int) (Int.add (c : Int) (castInt (PyVecIdx.rint (Fl.ofVal v))))) = !insideRight n (colRight c v) := by
+  rw [outside_aux, inside_eq n c v hc hn]
+
 open Pandora.Generated.KernelsCrossCheck
 
 /-- the generated row function and the hand model agree on one row -/
@@ -263,5 +330,94 @@ def table : List (Params × List Val × List Val × List Nat) := [
   (⟨2, -1, 0, 0⟩, [.num (-1), .num 3], [.num 1, .num 1], [0, 32])]
 
 theorem generated_eq_on_table : (table.all fun t => agreesOn t.1 t.2.1 t.2.2.1 t.2.2.2) = true := by decide +kernel
+
+/-! ## Stage 1: the consistency part -/
+
+theorem arange_natCast (n : Nat) : PyVec.arange (n : Int) = (List.range n).map (fun (i : Nat) => (i : Int)) := by
+  simp [PyVec.arange]
+
+theorem full_natCast {α : Type} (x : α) (n : Nat) : PyVec.full x (n : Int) = (List.range n).map (fun _ => x) := by
+  have := full_len x (List.range n)
+  simpa [len] using this
+
+/-! ## The hand model's per-column quantities -/
+
+def validC (m : Nat → Nat) (c : Nat) : Bool := !Flags.isInvalid (m c)
+def qOf (dL : List Val) (c : Nat) : Option Int := colRight c (dL.getD c .nan)
+def inB (dL : List Val) (c : Nat) : Bool := insideRight dL.length (qOf dL c)
+def distE (dL dR : List Val) (c : Nat) : Ext :=
+  match qOf dL c with
+  | some q => absSum (nanToInf (dR.getD q.toNat .nan)) (nanToInf (dL.getD c .nan))
+  | none => .inf
+/-- the columns the cross-checking invalidates, in the order of `invalid_col` -/
+def ICcols (thr : ℚ) (m : Nat → Nat) (dL dR : List Val) : List Nat :=
+  (List.range dL.length).filter (fun c => validC m c && inB dL c && (distE dL dR c).gt thr)
+    ++ (List.range dL.length).filter (fun c => validC m c && !inB dL c)
+def confModel (m : Nat → Nat) (dL dR : List Val) (c : Nat) : Fl :=
+  if validC m c && inB dL c then extFl (distE dL dR c) else .nan
+
+theorem dist_eq (dL dR : List Val) (c : Nat) (hin : inB dL c = true) :
+    ((if (getAt Fl.nan (embedRow dR) (Int.add (c : Int) (castInt (PyVecIdx.rint (Fl.ofVal (dL.getD c Val.nan)))))).isNan = true
+        then Fl.pinf
+        else getAt Fl.nan (embedRow dR) (Int.add (c : Int) (castInt (PyVecIdx.rint (Fl.ofVal (dL.getD c Val.nan))))))
+      = extFl (nanToInf (dR.getD (match qOf dL c with | some q => q | none => 0).toNat .nan))) := by
+  unfold inB qOf at *
+  rw [castInt_rint]
+  cases h : dL.getD c Val.nan with
+  | nan => rw [h] at hin; simp [colRight, insideRight] at hin
+  | num r =>
+    simp only [colRight, getAt, getD_embedRow]
+    exact nan_to_inf _
+
+theorem getAt_embedRow (l : List Val) (i : Int) : getAt Fl.nan (embedRow l) i = Fl.ofVal (l.getD i.toNat .nan) := by
+  unfold getAt; exact getD_embedRow l i.toNat
+
+theorem int_add_eq (a b : Int) : Int.add a b = a + b := rfl
+
+/-- **the consistency part, for every row**: stage 1 of the generated row function (statements up to `invalid_col`) never meets
+    a shape / bounds error and returns the row length, the confidence row of the hand model and the hand model's invalidated
+    columns (inside and beyond the threshold first, then outside), for every row length ≤ 2^63, every disparity (NaN
+    included), every flag word and threshold -/
+theorem crossCheckRow_consistency_eq (thr : ℚ) (dL dR : List Val) (m : Nat → Nat) (hr : dR.length = dL.length) (hn : dL.length ≤ 2 ^ 63) :
+    crossCheckRow_s1 ((List.range dL.length).map m) (embedRow dL) (embedRow dR) (.fin thr)
+      = .ok ((dL.length : Int), (List.range dL.length).map (confModel m dL dR),
+             (ICcols thr m dL dR).map (fun (c : Nat) => (c : Int))) := by
+  have hl : (embedRow dL).length = dL.length := by simp [embedRow]
+  simp only [crossCheckRow_s1, arange_natCast, full_natCast, hl, mapR, mapL, zip2, List.map_map, Function.comp_def,
+    gather_where, gather_map, zipWith_map_map, select_map, maskSet_map, concat, ← List.map_append,
+    getAt_natCast, scatterSet_range, getD_embedRow, getAt_embedRow, len_embedRow, valid_eq, nan_to_inf, abs_add_ext, lt_ext, castInt_rint]
+  rw [if_pos]
+  · congr 1
+    refine Prod.ext rfl (Prod.ext ?_ ?_)
+    · apply List.map_congr_left
+      intro c hc
+      have hc' := List.mem_range.mp hc
+      simp only [confModel, validC, inB, qOf, distE, List.mem_filter, List.mem_range, hc', true_and]
+      obtain ⟨v, hv⟩ : ∃ v, dL.getD c Val.nan = v := ⟨_, rfl⟩
+      simp only [hv]
+      cases v <;>
+        simp [colRight, insideRight, ile, ilt, hc', intMin, int_add_eq]
+      all_goals first
+        | (intros; omega)
+        | (generalize Flags.isInvalid (m c) = b; cases b <;> (try simp) <;> (try omega) <;>
+           (try (rw [Bool.eq_iff_iff]; (try simp); (try omega))); done)
+    · show List.map _ _ = List.map _ _
+      congr 1
+      simp only [List.filter_filter, ICcols]
+      congr 1 <;> apply List.filter_congr <;> intro c hc <;> (have hc' := List.mem_range.mp hc) <;>
+        simp only [validC, inB, qOf, distE] <;> generalize dL.getD c Val.nan = v <;> cases v <;>
+        simp [colRight, insideRight, ile, ilt, hc', intMin, int_add_eq]
+      all_goals first
+        | (intros; omega)
+        | (generalize Flags.isInvalid (m c) = b; generalize (absSum _ _).gt thr = g;
+           cases b <;> cases g <;> (try simp) <;> (try omega); done)
+        | (generalize Flags.isInvalid (m c) = b; cases b <;> (try simp) <;> (try omega) <;>
+           (try (rw [Bool.eq_iff_iff]; (try simp); (try omega))); done)
+  · simp only [Bool.and_eq_true]
+    repeat' apply And.intro
+    all_goals first
+      | (apply gatherOk_where; simp [embedRow, hr]; done)
+      | (simp [sameLen, scatterOk, gatherOk, inRange, len, embedRow, hr, ile, ilt]; done)
+      | (simp [sameLen, scatterOk, gatherOk, inRange, len, embedRow, hr, ile, ilt]; intros; omega)
 
 end Pandora.C07Kernels
